@@ -162,25 +162,29 @@ func hMaxCalls(c, D int) int {
 	return total
 }
 
-func H09e() {
-	n := vParam("docs", 3)
-	maxCtrl := vParam("maxctrl", 2)
-	g := newHGraph(n, maxCtrl, vParam("errs", 1) == 1)
+// H09e: every controller graph, resolver always answers. H09ef: (smaller) graphs, resolver answers with the
+// document, ErrNotFound, ErrDeactivated or a storage failure per document.
+func H09e() { hControllerGraph("H09e", vParam("e_docs", 3), vParam("e_maxctrl", 2), false) }
+
+func H09ef() { hControllerGraph("H09ef", vParam("e_fdocs", 2), vParam("e_fmaxctrl", 2), true) }
+
+func hControllerGraph(id string, n, maxCtrl int, faults bool) {
+	g := newHGraph(n, maxCtrl, faults)
 	root := g.get(0)
 
 	leaves, err := ResolveControllers(g, root.doc, nil)
 
 	// (1) the depth limit bounds the work on every graph, cyclic or not
-	vAssert(g.calls <= hMaxCalls(maxCtrl, maxControllerDepth), "H09e.calls_bounded_by_depth_limit: more resolver calls than a traversal of depth 5 can make")
+	vAssert(g.calls <= hMaxCalls(maxCtrl, maxControllerDepth), id+".calls_bounded_by_depth_limit: more resolver calls than a traversal of depth 5 can make")
 	if errors.Is(err, ErrNestedDocumentsTooDeep) {
 		vCover("too-deep")
-		vAssert(leaves == nil, "H09e.too_deep_returns_nothing: controllers returned together with the depth error")
+		vAssert(leaves == nil, id+".too_deep_returns_nothing: controllers returned together with the depth error")
 		return
 	}
 	if err != nil {
 		vCover("resolver-failure")
-		vAssert(errors.Is(err, hErrStorage), "H09e.only_storage_errors_propagate: an error other than a resolver failure or the depth limit was returned")
-		vAssert(leaves == nil, "H09e.failure_returns_nothing: controllers returned together with an error")
+		vAssert(errors.Is(err, hErrStorage), id+".only_storage_errors_propagate: an error other than a resolver failure or the depth limit was returned")
+		vAssert(leaves == nil, id+".failure_returns_nothing: controllers returned together with an error")
 		return
 	}
 	vCover("resolved")
@@ -188,9 +192,9 @@ func H09e() {
 	// resolvable, and is not deactivated
 	for _, l := range leaves {
 		li := g.index(l.ID)
-		vAssert(li < n, "H09e.leaf_in_world: returned a controller that no resolver call produced")
+		vAssert(li < n, id+".leaf_in_world: returned a controller that no resolver call produced")
 		ld := g.get(li)
-		vAssert(!resolver.IsDeactivated(l) && !hDeactivatedShape(ld), "H09e.no_deactivated_leaf: a deactivated document was returned as controller")
+		vAssert(!resolver.IsDeactivated(l) && !hDeactivatedShape(ld), id+".no_deactivated_leaf: a deactivated document was returned as controller")
 		if li == 0 {
 			vCover("self-controlled")
 			self := len(root.ctrl) == 0
@@ -199,7 +203,7 @@ func H09e() {
 					self = true
 				}
 			}
-			vAssert(self && root.hasKey, "H09e.self_leaf_only_if_self_controlled: root returned as its own controller without being self-controlled with keys")
+			vAssert(self && root.hasKey, id+".self_leaf_only_if_self_controlled: root returned as its own controller without being self-controlled with keys")
 		} else {
 			vCover("other-controller")
 			listed := false
@@ -208,14 +212,14 @@ func H09e() {
 					listed = true
 				}
 			}
-			vAssert(listed, "H09e.leaf_is_listed_controller: returned a document that the root does not list as controller")
-			vAssert(g.outcome(li) == hE_ok, "H09e.leaf_resolved: returned a controller the resolver did not return")
-			vAssert(g.refUsable(li, maxControllerDepth+1), "H09e.leaf_has_active_controller: returned a controller none of whose own controllers is active")
+			vAssert(listed, id+".leaf_is_listed_controller: returned a document that the root does not list as controller")
+			vAssert(g.outcome(li) == hE_ok, id+".leaf_resolved: returned a controller the resolver did not return")
+			vAssert(g.refUsable(li, maxControllerDepth+1), id+".leaf_has_active_controller: returned a controller none of whose own controllers is active")
 		}
 	}
 	// (3) conversely: no eligible controller is dropped (no error occurred, depth limit not hit)
 	if len(root.ctrl) == 0 {
-		vAssert((len(leaves) == 1) == root.hasKey, "H09e.uncontrolled_doc_is_own_controller: a document without controller entries and with keys is not its own (only) controller")
+		vAssert((len(leaves) == 1) == root.hasKey, id+".uncontrolled_doc_is_own_controller: a document without controller entries and with keys is not its own (only) controller")
 	}
 	for _, c := range root.ctrl {
 		if c != 0 && c < n && g.refUsable(c, maxControllerDepth+1) && !hDeactivatedShape(g.get(c)) {
@@ -225,7 +229,7 @@ func H09e() {
 					found = true
 				}
 			}
-			vAssert(found, "H09e.eligible_controller_returned: an active, resolvable controller was not returned")
+			vAssert(found, id+".eligible_controller_returned: an active, resolvable controller was not returned")
 		}
 	}
 }
@@ -236,5 +240,14 @@ func H09e_twin() {
 	_, err := ResolveControllers(g, root.doc, nil)
 	if errors.Is(err, ErrNestedDocumentsTooDeep) && g.calls == 5 {
 		vAssert(false, "H09e_twin.reach: reachable")
+	}
+}
+
+func H09ef_twin() {
+	g := newHGraph(2, 1, true)
+	root := g.get(0)
+	leaves, err := ResolveControllers(g, root.doc, nil)
+	if err == nil && len(leaves) == 0 && len(root.ctrl) == 1 && root.ctrl[0] == 1 && g.outcome(1) == hE_deactivated {
+		vAssert(false, "H09ef_twin.reach: reachable")
 	}
 }
